@@ -28,6 +28,8 @@ ENTRIES = [
 
 def run(ctx):
     ctx.do(MI.rule_pinv1)
+    ctx.do(MI.rule_inv3)
+    ctx.do(MI.rule_rc2, ["geometry_tools/hyperbolic.py", "geometry_tools/projective.py"])
     ctx.do(MI.rule_invs1)
     ctx.do(E.rule_m3)
     ctx.do(E.rule_m4)
